@@ -1,6 +1,7 @@
 package main
 
 import (
+	"fmt"
 	"go/ast"
 	"go/constant"
 	"go/token"
@@ -539,6 +540,9 @@ type Guard struct {
 	Cond   ssa.Value
 	Branch bool // the edge taken: true = then
 	If     *ssa.If
+	// Derived: not a test on the path itself but implied by the answer of
+	// a helper call tested on it (see derivedGuards)
+	Derived bool
 }
 
 // guardsOf returns the conditions whose then/else edge dominates block b.
@@ -633,10 +637,245 @@ func guardsOf(b *ssa.BasicBlock) []Guard {
 			}
 		}
 	}
+	// what the answers of helper calls imply: `ok, err := h(x); if err !=
+	// nil {..}; if ok {..}` stands under the guards common to every return
+	// of h that can produce those answers
+	if guardDepth < 3 && !noDerived {
+		guardDepth++
+		out = append(out, derivedGuards(out)...)
+		guardDepth--
+	}
 	return out
 }
 
 var guardDepth int
+
+// noDerived switches helper-answer derivation off (used while computing it).
+var noDerived bool
+
+type derivedKey struct {
+	call *ssa.Call
+	cons string
+}
+
+var derivedMemo = map[derivedKey][]Guard{}
+
+// derivedGuards: for every repository helper whose results the guards gs
+// constrain (a bool result known true/false, an error or pointer result
+// known nil/non-nil), the guards that hold at every return statement of the
+// helper compatible with those answers - including, for a constrained bool
+// result returned as an expression (`return find(xs, x), nil`), that
+// expression with the known truth value. These are facts of the path, so a
+// rule asking "is this block reached only if P" sees P when it was tested
+// inside a helper instead of inline.
+func derivedGuards(gs []Guard) []Guard {
+	type constraint struct {
+		idx  int
+		kind byte // 't' true, 'f' false, 'n' nil, 'v' non-nil
+	}
+	byCall := map[*ssa.Call][]constraint{}
+	var order []*ssa.Call
+	add := func(call *ssa.Call, c constraint) {
+		if _, ok := byCall[call]; !ok {
+			order = append(order, call)
+		}
+		byCall[call] = append(byCall[call], c)
+	}
+	helperOf := func(call *ssa.Call) *ssa.Function {
+		h := call.Common().StaticCallee()
+		if h == nil || len(h.Blocks) == 0 || !isRepoFn(h) || isTestSupportFn(h) {
+			return nil
+		}
+		return h
+	}
+	for _, g := range gs {
+		if call, idx := originCallLocal(g.Cond); call != nil && helperOf(call) != nil {
+			h := helperOf(call)
+			if idx < h.Signature.Results().Len() {
+				if b, ok := h.Signature.Results().At(idx).Type().Underlying().(*types.Basic); ok && b.Kind() == types.Bool {
+					k := byte('f')
+					if g.Branch {
+						k = 't'
+					}
+					add(call, constraint{idx, k})
+				}
+			}
+			continue
+		}
+		if b, ok := g.Cond.(*ssa.BinOp); ok && (b.Op == token.EQL || b.Op == token.NEQ) {
+			var x ssa.Value
+			switch {
+			case isNilConst(b.Y):
+				x = b.X
+			case isNilConst(b.X):
+				x = b.Y
+			default:
+				continue
+			}
+			if call, idx := originCallLocal(x); call != nil && helperOf(call) != nil && idx < helperOf(call).Signature.Results().Len() {
+				k := byte('v')
+				if (b.Op == token.EQL) == g.Branch {
+					k = 'n'
+				}
+				add(call, constraint{idx, k})
+			}
+		}
+	}
+	var out []Guard
+	for _, call := range order {
+		cons := byCall[call]
+		key := derivedKey{call, fmt.Sprint(cons)}
+		if d, ok := derivedMemo[key]; ok {
+			out = append(out, d...)
+			continue
+		}
+		derivedMemo[key] = nil // recursion guard
+		h := helperOf(call)
+		type gk struct {
+			iff  *ssa.If
+			cond ssa.Value
+			br   bool
+		}
+		var common map[gk]Guard
+		nRet := 0
+		for _, blk := range h.Blocks {
+			ret, ok := blk.Instrs[len(blk.Instrs)-1].(*ssa.Return)
+			if !ok || blk == h.Recover {
+				continue
+			}
+			rg := guardsOf(blk)
+			compatible := true
+			var extra []Guard
+			for _, c := range cons {
+				if c.idx >= len(ret.Results) {
+					compatible = false
+					break
+				}
+				leaves := phiLeaves(retResult(ret, c.idx))
+				anyOK := false
+				for _, lf := range leaves {
+					lf = stripLocal(lf)
+					if k, isK := lf.(*ssa.Const); isK {
+						switch c.kind {
+						case 't', 'f':
+							if k.Value != nil && constant.BoolVal(k.Value) == (c.kind == 't') {
+								anyOK = true
+							}
+						case 'n':
+							if k.IsNil() {
+								anyOK = true
+							}
+						case 'v':
+							if !k.IsNil() {
+								anyOK = true
+							}
+						}
+						continue
+					}
+					// a computed value: contradicted only if this very
+					// return stands under the opposite test of it
+					contra := false
+					for _, g2 := range rg {
+						switch c.kind {
+						case 't', 'f':
+							if stripLocal(g2.Cond) == lf && g2.Branch != (c.kind == 't') {
+								contra = true
+							}
+						case 'n', 'v':
+							if b2, ok := g2.Cond.(*ssa.BinOp); ok && (b2.Op == token.EQL || b2.Op == token.NEQ) {
+								var y ssa.Value
+								if isNilConst(b2.Y) {
+									y = b2.X
+								} else if isNilConst(b2.X) {
+									y = b2.Y
+								}
+								if y != nil && stripLocal(y) == lf {
+									saysNil := (b2.Op == token.EQL) == g2.Branch
+									if saysNil != (c.kind == 'n') {
+										contra = true
+									}
+								}
+							}
+						}
+					}
+					if !contra {
+						anyOK = true
+						if (c.kind == 't' || c.kind == 'f') && len(leaves) == 1 {
+							cond, br := lf, c.kind == 't'
+							for {
+								if u, ok := cond.(*ssa.UnOp); ok && u.Op == token.NOT {
+									cond, br = u.X, !br
+									continue
+								}
+								break
+							}
+							extra = append(extra, Guard{Cond: cond, Branch: br})
+						}
+					}
+				}
+				if !anyOK {
+					compatible = false
+					break
+				}
+			}
+			if !compatible {
+				continue
+			}
+			nRet++
+			here := map[gk]Guard{}
+			for _, g2 := range append(rg, extra...) {
+				here[gk{g2.If, nilIfHasIf(g2), g2.Branch}] = g2
+			}
+			if common == nil {
+				common = here
+			} else {
+				for k := range common {
+					if _, ok := here[k]; !ok {
+						delete(common, k)
+					}
+				}
+			}
+		}
+		var d []Guard
+		if nRet > 0 {
+			for _, g2 := range common {
+				d = append(d, g2)
+			}
+			sort.Slice(d, func(i, j int) bool {
+				pi, pj := token.NoPos, token.NoPos
+				if d[i].If != nil {
+					pi = d[i].If.Pos()
+				} else {
+					pi = d[i].Cond.Pos()
+				}
+				if d[j].If != nil {
+					pj = d[j].If.Pos()
+				} else {
+					pj = d[j].Cond.Pos()
+				}
+				if pi != pj {
+					return pi < pj
+				}
+				return !d[i].Branch && d[j].Branch
+			})
+		}
+		for i := range d {
+			d[i].Derived = true
+		}
+		derivedMemo[key] = d
+		out = append(out, d...)
+	}
+	return out
+}
+
+// nilIfHasIf: guards taken from an If are identified by it; guards made of a
+// returned expression by the expression.
+func nilIfHasIf(g Guard) ssa.Value {
+	if g.If != nil {
+		return nil
+	}
+	return g.Cond
+}
 
 // mustPass: every path from the function's entry to block `to` takes at
 // least one branch edge whose condition satisfies cut. Unlike guardedBy
@@ -644,6 +883,12 @@ var guardDepth int
 // }; use()` reaches use() only over the edges t==A or t==B although neither
 // dominates it.
 func mustPass(to *ssa.BasicBlock, cut func(Guard) bool) bool {
+	return mustPassX(to, cut, nil)
+}
+
+// mustPassX is mustPass with a second kind of cut: a path also counts when
+// it runs through a block satisfying cutBlock (one that makes a given call).
+func mustPassX(to *ssa.BasicBlock, cut func(Guard) bool, cutBlock func(*ssa.BasicBlock) bool) bool {
 	f := to.Parent()
 	if f == nil || len(f.Blocks) == 0 {
 		return false
@@ -659,6 +904,9 @@ func mustPass(to *ssa.BasicBlock, cut func(Guard) bool) bool {
 		seen[b] = true
 		if b == to {
 			return false
+		}
+		if cutBlock != nil && cutBlock(b) {
+			continue
 		}
 		iff, isIf := b.Instrs[len(b.Instrs)-1].(*ssa.If)
 		for i, sc := range b.Succs {
@@ -755,11 +1003,16 @@ func builtFrom(v ssa.Value, match func(ssa.Value) bool) bool {
 // pred (returned under a guard satisfying it, being the test itself, or
 // reached only over edges satisfying it).
 func establishes(g Guard, pred func(g Guard) bool) bool {
+	return establishesX(g, pred, nil)
+}
+
+// establishesX is establishes for either answer of the helper (the edge
+// taken when it said g.Branch), with an optional block cut: a path inside
+// the helper also counts when it runs through a block satisfying cutBlock
+// (e.g. one that calls Cancel).
+func establishesX(g Guard, pred func(g Guard) bool, cutBlock func(*ssa.BasicBlock) bool) bool {
 	if pred(g) {
 		return true
-	}
-	if !g.Branch {
-		return false
 	}
 	call, idx := originCallLocal(g.Cond)
 	if call == nil {
@@ -774,11 +1027,14 @@ func establishes(g Guard, pred func(g Guard) bool) bool {
 	}
 	n := 0
 	for _, lf := range returnLeaves(h, idx) {
-		if k, isK := constOf(lf.Val); isK && (k == nil || !constant.BoolVal(k)) {
-			continue // a false answer does not take the true edge
+		if k, isK := constOf(lf.Val); isK && (k == nil || constant.BoolVal(k) != g.Branch) {
+			continue // the other answer does not take this edge
 		}
 		n++
-		if lf.GuardedBy(pred) || pred(Guard{Cond: lf.Val, Branch: true}) {
+		if lf.GuardedBy(pred) || pred(Guard{Cond: lf.Val, Branch: g.Branch}) {
+			continue
+		}
+		if cutBlock != nil && (cutBlock(lf.Block) || mustPassX(lf.Block, pred, cutBlock)) {
 			continue
 		}
 		// every path inside the helper to this answer passes such an edge
